@@ -1,0 +1,120 @@
+//go:build verif
+
+// Contracts for deductive verification (read by /verif/govc). Comment-only: this file adds no code.
+package keeper
+
+//@ store Pledge     kv=node/Pledge/value/     key=node_PledgeKey     val=github.com/SaoNetwork/sao/x/node/types.Pledge
+//@ store PledgeDebt kv=node/PledgeDebt/value/ key=node_PledgeDebtKey val=github.com/SaoNetwork/sao/x/node/types.PledgeDebt
+//@ store Pool       kv=node/Pool/value/       key=byte0              val=github.com/SaoNetwork/sao/x/node/types.Pool
+//@ store Node       kv=node/Node/value/       key=node_NodeKey       val=github.com/SaoNetwork/sao/x/node/types.Node
+
+// ---- scaffolded accessors: verified against the raw KV model, callers see the typed view only
+
+//@ accessor get (Keeper) GetPledge Pledge(creator)
+//@ accessor set (Keeper) SetPledge Pledge(pledge.Creator) pledge
+//@ accessor del (Keeper) RemovePledge Pledge(creator)
+//@ accessor get (Keeper) GetPledgeDebt PledgeDebt(sp)
+//@ accessor set (Keeper) SetPledgeDebt PledgeDebt(pledgeDebt.Sp) pledgeDebt
+//@ accessor del (Keeper) RemovePledgeDebt PledgeDebt(sp)
+//@ accessor get (Keeper) GetPool Pool()
+//@ accessor set (Keeper) SetPool Pool() pool
+//@ accessor get (Keeper) GetNode Node(creator)
+//@ accessor set (Keeper) SetNode Node(node.Creator) node
+//@ accessor del (Keeper) RemoveNode Node(creator)
+
+//@ func (Keeper) StoreRewardPledge(duration, size, rewardPerByte) (res)
+//@   ensures [C07.pledge.formula] size <= MaxInt64 && duration <= MaxInt64 ==> res == (rewardPerByte.Amount * size * duration) / 10
+
+// RepayPledgeDebt is used with one (shard release) or two (claim) distinct coins.
+//@ func (Keeper) RepayPledgeDebt(ctx, sp, rewards)
+//@   requires 1 <= len(rewards) && len(rewards) <= 2
+//@   requires rewards[0] != nil && (len(rewards) == 2 ==> rewards[1] != nil && rewards[1] != rewards[0])
+//@   requires rewards[0].Amount >= 0 && (len(rewards) == 2 ==> rewards[1].Amount >= 0)
+//@   requires has(PledgeDebt, sp) ==> PledgeDebt[sp].Sp == sp && PledgeDebt[sp].Debt.Amount >= 0
+//@   modifies PledgeDebt[sp], heap(Coin)
+//@   ensures [C07.repay.frame] forall r ref :: r != rewards[0] && (len(rewards) < 2 || r != rewards[1]) ==> heap(Coin)[r] == old(heap(Coin))[r]
+//@   ensures [C07.repay.nodebt] !old(has(PledgeDebt, sp)) ==> *rewards[0] == old(*rewards[0]) && (len(rewards) == 2 ==> *rewards[1] == old(*rewards[1])) && !has(PledgeDebt, sp)
+//@   ensures [C07.repay.conserve] old(has(PledgeDebt, sp)) ==>
+//@       rewards[0].Amount + (len(rewards) == 2 ? rewards[1].Amount : 0) + old(PledgeDebt[sp].Debt.Amount) - (has(PledgeDebt, sp) ? PledgeDebt[sp].Debt.Amount : 0)
+//@       == old(rewards[0].Amount) + (len(rewards) == 2 ? old(rewards[1].Amount) : 0)
+//@   ensures [C07.repay.mono0] 0 <= rewards[0].Amount && rewards[0].Amount <= old(rewards[0].Amount) && rewards[0].Denom == old(rewards[0].Denom)
+//@   ensures [C07.repay.mono1] len(rewards) == 2 ==> 0 <= rewards[1].Amount && rewards[1].Amount <= old(rewards[1].Amount) && rewards[1].Denom == old(rewards[1].Denom)
+//@   ensures [C07.repay.debt] has(PledgeDebt, sp) ==> old(has(PledgeDebt, sp)) && PledgeDebt[sp].Sp == sp && PledgeDebt[sp].Debt.Denom == old(PledgeDebt[sp].Debt.Denom)
+//@       && 0 < PledgeDebt[sp].Debt.Amount && PledgeDebt[sp].Debt.Amount <= old(PledgeDebt[sp].Debt.Amount)
+//@   ensures [C07.repay.greedy] has(PledgeDebt, sp) ==> rewards[0].Amount == 0 && (len(rewards) == 2 ==> rewards[1].Amount == 0)
+//@   loop L1 noframe
+//@   loop L1 invariant -1 <= rangeindex && rangeindex < len(rewards0)
+//@   loop L1 invariant forall r ref :: r != rewards0[0] && (len(rewards0) < 2 || r != rewards0[1]) ==> heap(Coin)[r] == old(heap(Coin))[r]
+//@   loop L1 invariant pledgeDebt.Sp == sp0 && pledgeDebt.Debt.Denom == old(PledgeDebt[sp0].Debt.Denom) && pledgeDebt.Debt.Amount >= 0
+//@   loop L1 invariant rangeindex == -1 ==> *rewards0[0] == old(*rewards0[0]) && pledgeDebt == old(PledgeDebt[sp0])
+//@   loop L1 invariant rangeindex < 1 && len(rewards0) == 2 ==> *rewards0[1] == old(*rewards0[1])
+//@   loop L1 invariant rangeindex >= 0 ==> rewards0[0].Amount == 0 && rewards0[0].Denom == old(rewards0[0].Denom)
+//@   loop L1 invariant rangeindex >= 1 ==> rewards0[1].Amount == 0 && rewards0[1].Denom == old(rewards0[1].Denom)
+//@   loop L1 invariant rangeindex == 0 ==> pledgeDebt.Debt.Amount == old(PledgeDebt[sp0].Debt.Amount) - old(rewards0[0].Amount) && pledgeDebt.Debt.Amount > 0
+//@   loop L1 invariant rangeindex == 1 ==> pledgeDebt.Debt.Amount == old(PledgeDebt[sp0].Debt.Amount) - old(rewards0[0].Amount) - old(rewards0[1].Amount) && pledgeDebt.Debt.Amount > 0
+//@   loop L1 decreases len(rewards0) - rangeindex
+
+// Well-formedness of a pledge record as the keepers maintain it (representation invariant; assumed of every stored pledge,
+// re-established by every writer).
+//@ pure pledgeWf(p node_Pledge) bool = p.TotalStorage >= 0 && p.UsedStorage >= 0 && p.UsedStorage <= p.TotalStorage && p.TotalShardPledged.Amount >= 0 && p.TotalStoragePledged.Amount >= 0
+//@ pure pendingQ(p node_Pledge, acc int) int = p.Reward.Amount + acc * p.TotalStorage - p.RewardDebt.Amount
+
+//@ func (Keeper) ShardRelease(ctx, sp, shard) (err)
+//@   requires [C07.release.to] shard != nil ==> str(sp) == shard.Sp
+//@   requires has(Pledge, str(sp)) ==> Pledge[str(sp)].Creator == str(sp)
+//@   requires shard != nil && has(PledgeDebt, shard.Sp) ==> PledgeDebt[shard.Sp].Sp == shard.Sp && PledgeDebt[shard.Sp].Debt.Amount >= 0
+//@   requires shard != nil ==> shard.Pledge.Amount >= 0
+//@   modifies Pledge[str(sp)], PledgeDebt[str(sp)], Bank
+//@   ensures [C07.release.amount] err == nil && shard != nil && sp != moduleAddr("node") ==>
+//@       bal(sp, shard.Pledge.Denom) + (old(has(PledgeDebt, shard.Sp)) ? old(PledgeDebt[shard.Sp].Debt.Amount) : 0)
+//@       == old(bal(sp, shard.Pledge.Denom)) + shard.Pledge.Amount + (has(PledgeDebt, shard.Sp) ? PledgeDebt[shard.Sp].Debt.Amount : 0)
+//@   ensures [C07.release.escrow] err == nil && shard != nil && sp != moduleAddr("node") ==>
+//@       bal(moduleAddr("node"), shard.Pledge.Denom) - old(bal(moduleAddr("node"), shard.Pledge.Denom)) == old(bal(sp, shard.Pledge.Denom)) - bal(sp, shard.Pledge.Denom)
+//@   ensures [C07.release.bankframe] err == nil ==> forall a addr, d string :: (a != sp && a != moduleAddr("node")) || shard == nil || d != shard.Pledge.Denom ==> bal(a, d) == old(bal(a, d))
+//@   ensures [C14.release.used] err == nil && shard != nil && shard.Size_ <= old(Pledge[str(sp)].UsedStorage) ==> Pledge[str(sp)].UsedStorage == old(Pledge[str(sp)].UsedStorage) - shard.Size_
+//@   ensures [C14.release.spledge] err == nil && shard != nil ==> Pledge[str(sp)].TotalShardPledged.Amount == old(Pledge[str(sp)].TotalShardPledged.Amount) - shard.Pledge.Amount
+//@       && Pledge[str(sp)].TotalShardPledged.Amount >= 0
+//@   ensures [C14.release.other] err == nil ==> has(Pledge, str(sp)) && Pledge[str(sp)].TotalStorage == old(Pledge[str(sp)].TotalStorage)
+//@       && Pledge[str(sp)].TotalStoragePledged == old(Pledge[str(sp)].TotalStoragePledged) && Pledge[str(sp)].Creator == str(sp)
+//@   ensures [C14.release.nil] err == nil && shard == nil ==> Pledge[str(sp)].UsedStorage == old(Pledge[str(sp)].UsedStorage)
+//@       && Pledge[str(sp)].TotalShardPledged == old(Pledge[str(sp)].TotalShardPledged) && (has(PledgeDebt, str(sp)) <==> old(has(PledgeDebt, str(sp))))
+//@   ensures [C08.settle.release] err == nil && old(Pledge[str(sp)].TotalStorage >= 0 && (Pledge[str(sp)].TotalStorage == 0 ==> Pledge[str(sp)].RewardDebt.Amount == 0)) && old(has(Pool)) ==>
+//@       pendingQ(Pledge[str(sp)], get(Pool).AccRewardPerByte.Amount) == old(pendingQ(Pledge[str(sp)], get(Pool).AccRewardPerByte.Amount))
+//@       && Pledge[str(sp)].RewardDebt.Amount == get(Pool).AccRewardPerByte.Amount * Pledge[str(sp)].TotalStorage
+
+// ceil of a Dec (scaled by 10^18) to whole coins, for non-negative amounts
+//@ pure ceilDec(a int) int = div(a + 999999999999999999, 1000000000000000000)
+
+//@ func (Keeper) ShardPledge(ctx, shard, unitPrice) (err)
+//@   requires shard != nil
+//@   requires has(Pledge, shard.Sp) ==> Pledge[shard.Sp].Creator == shard.Sp
+//@   requires has(PledgeDebt, shard.Sp) ==> PledgeDebt[shard.Sp].Sp == shard.Sp && PledgeDebt[shard.Sp].Debt.Amount >= 0
+//@   requires unitPrice.Amount >= 0 && shard.Size_ <= MaxInt64 && shard.Duration <= MaxInt64
+//@   modifies Pledge[shard.Sp], PledgeDebt[shard.Sp], Bank, *shard, Shard[shard.Id]
+//@   ensures [C07.pledge.base] err == nil ==> shard.Pledge.Amount >= ceilDec((unitPrice.Amount * old(shard.Size_) * old(shard.Duration)) / 10)
+//@   ensures [C07.pledge.exact] err == nil && len(old(shard.RenewInfos)) == 0 ==> shard.Pledge.Amount == ceilDec((unitPrice.Amount * old(shard.Size_) * old(shard.Duration)) / 10)
+//@   ensures [C07.pledge.renew] err == nil ==> forall j int :: 0 <= j && j < len(old(shard.RenewInfos)) ==> shard.Pledge.Amount >= old(shard.RenewInfos)[j].Pledge.Amount
+//@   ensures [C07.pledge.taken] err == nil && addr(old(shard.Sp)) != moduleAddr("node") ==>
+//@       (bal(moduleAddr("node"), shard.Pledge.Denom) - oldbal(moduleAddr("node"), shard.Pledge.Denom))
+//@       + ((has(PledgeDebt, shard.Sp) ? PledgeDebt[shard.Sp].Debt.Amount : 0) - (old(has(PledgeDebt, shard.Sp)) ? old(PledgeDebt[shard.Sp].Debt.Amount) : 0))
+//@       == shard.Pledge.Amount
+//@   ensures [C07.pledge.from] err == nil && addr(old(shard.Sp)) != moduleAddr("node") ==>
+//@       bal(moduleAddr("node"), shard.Pledge.Denom) - oldbal(moduleAddr("node"), shard.Pledge.Denom) == oldbal(addr(shard.Sp), shard.Pledge.Denom) - bal(addr(shard.Sp), shard.Pledge.Denom)
+//@   ensures [C07.pledge.bankframe] err == nil ==> forall a addr, d string :: (a != addr(old(shard.Sp)) && a != moduleAddr("node")) || d != shard.Pledge.Denom ==> bal(a, d) == old(bal(a, d))
+//@   ensures [C07.pledge.capacity] err == nil && old(pledgeWf(Pledge[shard.Sp])) ==> pledgeWf(Pledge[shard.Sp]) && old(Pledge[shard.Sp].TotalStorage - Pledge[shard.Sp].UsedStorage) >= shard.Size_
+//@   ensures [C14.pledge.used] err == nil && old(pledgeWf(Pledge[shard.Sp])) ==> Pledge[shard.Sp].UsedStorage == old(Pledge[shard.Sp].UsedStorage) + shard.Size_
+//@   ensures [C14.pledge.spledge] err == nil ==> Pledge[shard.Sp].TotalShardPledged.Amount == old(Pledge[shard.Sp].TotalShardPledged.Amount) + shard.Pledge.Amount
+//@   ensures [C14.pledge.other] err == nil ==> has(Pledge, shard.Sp) && Pledge[shard.Sp].TotalStorage == old(Pledge[shard.Sp].TotalStorage)
+//@       && Pledge[shard.Sp].TotalStoragePledged == old(Pledge[shard.Sp].TotalStoragePledged) && Pledge[shard.Sp].Creator == shard.Sp
+//@   ensures [C14.pledge.shard] err == nil ==> has(Shard, shard.Id) && Shard[shard.Id] == *shard
+//@   ensures [C14.pledge.shardframe] err == nil ==> shard.Id == old(shard.Id) && shard.Sp == old(shard.Sp) && shard.Size_ == old(shard.Size_) && shard.OrderId == old(shard.OrderId)
+//@       && shard.Status == old(shard.Status) && shard.Duration == old(shard.Duration) && shard.CreatedAt == old(shard.CreatedAt) && shard.RenewInfos == old(shard.RenewInfos)
+//@   ensures [C08.settle.pledge] err == nil && old(Pledge[shard.Sp].TotalStorage >= 0 && (Pledge[shard.Sp].TotalStorage == 0 ==> Pledge[shard.Sp].RewardDebt.Amount == 0)) ==>
+//@       pendingQ(Pledge[shard.Sp], get(Pool).AccRewardPerByte.Amount) == old(pendingQ(Pledge[shard.Sp], get(Pool).AccRewardPerByte.Amount))
+//@       && Pledge[shard.Sp].RewardDebt.Amount == get(Pool).AccRewardPerByte.Amount * Pledge[shard.Sp].TotalStorage
+//@   loop L1 invariant -1 <= rangeindex && rangeindex < len(shard0.RenewInfos)
+//@   loop L1 invariant shardPledge.Amount >= ceilDec((unitPrice0.Amount * shard0.Size_ * shard0.Duration) / 10)
+//@   loop L1 invariant len(shard0.RenewInfos) == 0 ==> shardPledge.Amount == ceilDec((unitPrice0.Amount * shard0.Size_ * shard0.Duration) / 10)
+//@   loop L1 invariant forall j int :: 0 <= j && j <= rangeindex ==> shardPledge.Amount >= shard0.RenewInfos[j].Pledge.Amount
+//@   loop L1 invariant shardPledge.Denom == pledge.TotalShardPledged.Denom
+//@   loop L1 decreases len(shard0.RenewInfos) - rangeindex
